@@ -201,6 +201,9 @@ C18Clauses(ev) ==
 
 Clauses(ev, s) ==
   IF ev.ev # "Module" THEN <<>> ELSE
+  \* model names that are equal after case/punctuation folding (e.g. keys `Fields` and `field_` both give `Field`) collide as
+  \* class names: the folded-equal finding listed under C11; the other properties do not range over such inputs
+  IF ~ev.namesdomain /\ Claim # "C11" THEN <<>> ELSE
   CASE Claim = "C01" -> C01Clauses(ev)
     [] Claim = "C03" -> C03Clauses(ev)
     [] Claim = "C04" -> C04Clauses(ev)
